@@ -540,3 +540,50 @@ Proof.
   pose proof (rw_trace_wf sched (wc_init progs)) as H.
   cbn [wc_init wc_threads] in H. rewrite map_length in H. exact H.
 Qed.
+
+(* what the ordering rests on: in the run of the non-vacuity example, without thread 2's
+   atomic load of wc.state (event 9) its read of closeChan races with thread 0's write *)
+Lemma rw_without_load_refuted :
+  let tr := rw_trace (wc_init [[OpC]; [OpClose (Cb ONil true)]; [OpWait]])
+                     (map IRun [0;0;0;0; 1;1;1; 2;2; 1;1; 2;2;2; 0;0]) in
+  nth_error tr 9 = Some (2, RAcq rw_state) /\ hb_race (firstn 9 tr ++ skipn 10 tr).
+Proof. split; [vm_compute; reflexivity|]. apply (hbp_sound 3). vm_compute. reflexivity. Qed.
+
+(* ------------------------------------------------------------------ labelling vs yield sites
+   C16 checks at every step that the real goroutine is parked at the yield site the model
+   predicts ([wc_site_pc]: 1 LoadState, 2 BeforeLock, 3 AfterLock, 4 AfterUnlock, 5 inside the
+   callback, 6 select).  The labelling agrees: from LoadState the first event is the atomic
+   load; from BeforeLock the step is blocked or is Lock; from AfterLock (mutex held) the step
+   starts with the plain read of wc.state and contains no acquire; from inside the callback
+   it is the deferred store and Unlock; from AfterUnlock / select / no site it contains no
+   synchronisation event. *)
+Lemma rw_sites g pc :
+  match wc_site_pc pc with
+  | 1 => exists rest, rw_step_pc g false pc = RAcq rw_state :: rest
+                      /\ Forall (fun e => ~ rm_sync e) rest
+  | 2 => rw_step_pc g false pc = [] \/ rw_step_pc g false pc = [RAcq rw_mutex]
+  | 3 => exists rest, rw_step_pc g false pc = RRead rw_xstate :: rest
+                      /\ Forall (fun e => forall o, ~ hb_is_acq e o) rest
+  | 5 => rw_step_pc g false pc = rw_store_unlock
+  | _ => Forall (fun e => ~ rm_sync e) (rw_step_pc g false pc)
+  end.
+Proof.
+  destruct pc; cbn [wc_site_pc rw_step_pc].
+  - constructor.
+  - eexists. split; [reflexivity|constructor].
+  - destruct (sh_own g); [left|right]; reflexivity.
+  - eexists. split; [reflexivity|].
+    destruct (wc_is_closed_st (sh_st g)); [repeat constructor; intros o []|].
+    constructor; [intros o2 []|]. constructor; [destruct (sh_st g); intros o2 []|].
+    destruct (wc_perform g); [|repeat constructor; intros o2 []].
+    destruct cb as [|oc [|]]; unfold rw_store_unlock; repeat constructor; intros o2 [].
+  - reflexivity.
+  - constructor.
+  - eexists. split; [reflexivity|]. destruct (wc_is_new_st (sh_st g)); repeat constructor. intros [].
+  - destruct (sh_own g); [left|right]; reflexivity.
+  - eexists. split; [reflexivity|].
+    destruct (wc_is_new_st (sh_st g)); cbn [app]; repeat constructor; intros o2 [].
+  - repeat constructor. intros [].
+  - eexists. split; [reflexivity|constructor].
+  - constructor.
+Qed.
